@@ -61,6 +61,7 @@ func repoDir() string {
 func Load(cfg BuildConfig, overlay map[string][]byte) (*Program, error) {
 	dir := repoDir()
 	env := append(os.Environ(), "GOFLAGS=-mod=mod", "GOPROXY=off", "GOSUMDB=off", "GOTOOLCHAIN=local", "GOWORK=off", "CGO_ENABLED=0")
+	env = append(env, "PATH=/opt/veriftools/go1.26.8/bin:"+os.Getenv("PATH"))
 	env = append(env, cfg.Env...)
 	pc := &packages.Config{
 		Mode:    packages.LoadAllSyntax,
